@@ -158,6 +158,18 @@ def run(ctx):
                     ctx.ob("builder/%s" % name, False, "%s; native: %s" % (bad, why))
                     ctx.violation("builder-method/%s/%s" % (name, classify(why)), "Builder::%s: %s (model: %s)" % (name, why, bad),
                                   {"cmd": "builder_call %s 2" % name, "real": real})
+                elif "words of a slice argument" in bad:
+                    # duplicates in the slice: the native call with slice arguments [w, w, 101] (101 = the second id argument's value)
+                    real2 = rp.ask("builder_call %s 2 7" % name)
+                    nops2 = [len(x.get("inst", {}).get("operands", [])) for x in real2.get("added", [])]
+                    real1 = rp.ask("builder_call %s 2" % name)
+                    nops1 = [len(x.get("inst", {}).get("operands", [])) for x in real1.get("added", [])]
+                    if nops1 and nops2 and nops2[0] != nops1[0] + 2:
+                        ctx.ob("builder/%s" % name, False, "%s; native: %d operands for a 1-word slice, %d for a 3-word slice with repeated ids" % (bad, nops1[0], nops2[0]))
+                        ctx.violation("builder-method/%s/slice-argument-not-carried" % name, "Builder::%s: %s; on the compiled crate a slice argument [w, w, 101] adds %d operands "
+                                      "instead of 3" % (name, bad, nops2[0] - nops1[0] + 1), {"cmd": "builder_call %s 2 7" % name, "real": real2})
+                    else:
+                        ctx.ob("builder/%s" % name, None, "model reports '%s' but the native calls conform: %s" % (bad, str(real2)[:200]))
                 else:
                     ctx.ob("builder/%s" % name, None, "model reports '%s' but the native call conforms: %s" % (bad, str(real)[:300]))
     # native sweep over every public method (validation leg and replay of the same criteria)
